@@ -1,27 +1,46 @@
 """Shared higher-level analyses built on mir.py."""
 import re
 
-from .mir import Prov, Guards, callee_name, callee_matches, show, walk_term, field_accesses, discr_variants, op_place
+from .mir import Prov, Guards, callee_name, callee_matches, show, walk_term, field_accesses, discr_variants, op_place, is_new_helper, subst_args
 
 
 def rpo_index(body):
     return {b: i for i, b in enumerate(body.rpo())}
 
 
-def events(body, pred, prov=None, guards=None):
+def events(body, pred, prov=None, guards=None, _depth=0):
     """Calls matching pred, in reverse post-order, with receiver/argument provenance and
     the switch edges that dominate them."""
     prov = prov or Prov(body)
     guards = guards or Guards(body)
     idx = rpo_index(body)
     out = []
-    for bi, t in body.calls(pred):
+    prog = getattr(body.fn, "prog", None)
+    for bi, t in body.calls(lambda t: True):
         if bi not in idx:
+            continue
+        name = callee_name(t)
+        if prog is not None and _depth < 3 and is_new_helper(prog, name):
+            # a helper that did not exist when the rules were written: its events happen here, in its order, with the
+            # caller's arguments substituted and under the caller's guards plus its own
+            cb = prog.fns[name].body
+            amap = {i + 1: prov.operand(a) for i, a in enumerate(t["args"])}
+            for k, e in enumerate(events(cb, pred, _depth=_depth + 1)):
+                e2 = dict(e)
+                e2["args"] = [subst_args(a, amap) for a in e["args"]]
+                e2["conds"] = list(guards.conds(bi)) + [((sb if isinstance(sb, tuple) else (cb, sb)), subst_args(d, amap), vals, excl) for (sb, d, vals, excl) in e["conds"]]
+                e2["bb"] = bi
+                e2["order"] = idx[bi] + (k + 1) / 1000.0
+                e2["inlined_from"] = name
+                e2["callee_body"] = e.get("callee_body", cb)
+                out.append(e2)
+            continue
+        if not pred(t):
             continue
         out.append({
             "bb": bi,
             "t": t,
-            "name": callee_name(t),
+            "name": name,
             "self_ty": t.get("self_ty"),
             "args": [prov.operand(a) for a in t["args"]],
             "conds": guards.conds(bi),
@@ -39,8 +58,14 @@ def is_decode_call(t):
     return callee_matches(t, r"encode::Decodable>::consensus_decode$", r"^encode::Decodable::consensus_decode$")
 
 
+def _home(body, sb):
+    """conditions of events inlined from a helper carry (helper body, block) instead of a block of the caller"""
+    return sb if isinstance(sb, tuple) else (body, sb)
+
+
 def is_try_switch(body, sb):
     """the switch at sb tests the result of `?` (Try::branch)"""
+    body, sb = _home(body, sb)
     pl = op_place(body.term(sb)["d"])
     if pl is None:
         return False
@@ -59,7 +84,8 @@ def cond_desc(body, conds, keep_try=False):
     for (sb, d, vals, excl) in conds:
         if not keep_try and is_try_switch(body, sb):
             continue
-        dv = discr_variants(body, sb)
+        hb, hs = _home(body, sb)
+        dv = discr_variants(hb, hs)
         if dv:
             names, _ = dv
             if vals is not None:
@@ -68,7 +94,7 @@ def cond_desc(body, conds, keep_try=False):
                 rest = [n for v, n in names.items() if v not in (excl or [])]
                 lab = "|".join(rest) if rest else "otherwise"
         else:
-            dty = body.term(sb).get("dty")
+            dty = hb.term(hs).get("dty")
             if dty == "bool":
                 if vals is not None:
                     lab = "false" if vals == [0] else "true" if vals == [1] else str(vals)
@@ -106,15 +132,16 @@ def drop_error_guards(body, conds):
     `if bad { return Err(..) }` — they gate nothing but the error, like the `?` after `.ok_or(..)`)"""
     out = []
     for (sb, d, vals, excl) in conds:
-        t = body.term(sb)
+        body_, sb_ = _home(body, sb)
+        t = body_.term(sb_)
         taken = set()
         tm = {int(v): tgt for v, tgt in t["ts"]}
         if vals is not None:
             taken = {tm.get(v, t["o"]) for v in vals}
         else:
             taken = {t["o"]}
-        others = [x for x in set(list(tm.values()) + [t["o"]]) if x not in taken and body.blocks[x]["t"]["k"] != "unreachable"]
-        if others and all(leads_only_to_error(body, x) for x in others):
+        others = [x for x in set(list(tm.values()) + [t["o"]]) if x not in taken and body_.blocks[x]["t"]["k"] != "unreachable"]
+        if others and all(leads_only_to_error(body_, x) for x in others):
             continue
         out.append((sb, d, vals, excl))
     return out
